@@ -279,11 +279,20 @@ def resolve_predicate(repo, interp, ci, fn: T, effects_out: Optional[list] = Non
             target = (found[1], found[2], None, 0)
     elif fn.op == "lambda" and len(fn.a) == 1:
         return None
+    recv_obj = None
+    if target is None and fn.op == "attr" and fn.a[0].op == "new":
+        # a bound method of a helper object built in the listing (`helpers.is_reported`): its body over that object
+        f_ = repo.lookup(fn.a[0].a[0])
+        if f_ and f_[0] == "class" and fn.a[1] in f_[2].methods:
+            target = (f_[2].module, f_[2].methods[fn.a[1]], f_[2], 1)
+            recv_obj = fn.a[0]
     if target is None:
         return None
     mod, fnode, cls, skip = target
     names = [a.arg for a in fnode.args.args][skip:]
     bind = {}
+    if recv_obj is not None and fnode.args.args:
+        bind[fnode.args.args[0].arg] = recv_obj
     for nme, v in zip(names, fixed):
         bind[nme] = v
     rest = [n for n in names[len(fixed):] if n not in dict(fixed_kw)]
